@@ -6,6 +6,7 @@ CONSTANTS
   AsFoundNoFinalFlush = FALSE
   AsFoundDeferredLine = FALSE
 INVARIANT OutIsResult
+INVARIANT CommitOncePerStatement
 INVARIANT NoLossNoDup
 INVARIANT KindsMirror
 INVARIANT DocAttached
